@@ -72,3 +72,10 @@ Proof.
   repeat split; auto using isCopyFromSrc_gen_spec, isCopyFromDelta_gen_spec, invalidSize_gen_spec,
     sumOverflows_gen_spec, invalidOffsetSize_gen_spec, leb_rule_gen_spec.
 Qed.
+
+(* the (mask, shift) tables decodeOffset / decodeSize walk are the ones in the source *)
+Definition tbl_to_Z (t : list (N * N)) : list (Z * Z) := map (fun p => (Z.of_N (fst p), Z.of_N (snd p))) t.
+Lemma offsets_tbl_gen_spec : packfile_offsets = tbl_to_Z offsets_tbl.
+Proof. reflexivity. Qed.
+Lemma sizes_tbl_gen_spec : packfile_sizes = tbl_to_Z sizes_tbl.
+Proof. reflexivity. Qed.
